@@ -116,6 +116,21 @@ impl Sm4 {
         out
     }
 
+    /// The master key whose round keys rk[pos..pos+4] are `window` (pos in 0..=28): the recurrence is run backwards from the window.
+    pub fn key_from_round_key_window(pos: usize, window: [u32; 4]) -> [u8; 16] {
+        let mut k = [0u32; 36];
+        let top = pos.min(28) + 4;
+        k[top..top + 4].copy_from_slice(&window);
+        for i in (0..top).rev() {
+            k[i] = k[i + 4] ^ t_key(k[i + 1] ^ k[i + 2] ^ k[i + 3] ^ ck(i));
+        }
+        let mut out = [0u8; 16];
+        for i in 0..4 {
+            out[4 * i..4 * i + 4].copy_from_slice(&(k[i] ^ FK[i]).to_be_bytes());
+        }
+        out
+    }
+
     fn crypt(&self, block: &[u8; 16], decrypt: bool) -> [u8; 16] {
         let mut x = [0u32; 36];
         for i in 0..4 {
